@@ -81,10 +81,14 @@ pub struct Layout {
     /// position of the N row among ROWS: 0 first, 1 last, 2 middle
     pub n_row_pos: u8,
     pub empty_sections: bool,
+    /// kilobytes of comment lines spread over the file, so that it outgrows the readers' internal buffers
+    /// (std BufReader 8 KiB, flate2 32 KiB): the refill paths run only then
+    #[serde(default)]
+    pub padding_kb: u8,
 }
 impl Layout {
     pub fn plain() -> Layout {
-        Layout { seed: 0, five_field: false, comments: false, blank_lines: false, sep: 0, numbers: 0, crlf: false, final_newline: true, n_row_pos: 0, empty_sections: true }
+        Layout { seed: 0, five_field: false, comments: false, blank_lines: false, sep: 0, numbers: 0, crlf: false, final_newline: true, n_row_pos: 0, empty_sections: true, padding_kb: 0 }
     }
 }
 #[derive(Clone, Debug, Serialize, Deserialize)]
@@ -498,6 +502,21 @@ impl MpsModel {
             }
         }
         lines.push("ENDATA".into());
+        if lay.padding_kb > 0 {
+            // comment lines (incompressible enough to also grow the gzip container) at seeded positions before ENDATA
+            let total = lay.padding_kb as usize * 1024;
+            let mut made = 0;
+            let mut prng = Rng::new(lay.seed ^ 0xBADD);
+            while made < total {
+                let mut l = String::from("* ");
+                for _ in 0..70 {
+                    l.push((b'!' + prng.below(90) as u8) as char);
+                }
+                made += l.len() + 1;
+                let pos = prng.usize(lines.len());
+                lines.insert(pos, l);
+            }
+        }
         let nl = if lay.crlf { "\r\n" } else { "\n" };
         let mut s = lines.join(nl);
         if lay.final_newline {
@@ -631,5 +650,6 @@ pub fn gen_layout(rng: &mut Rng) -> Layout {
         final_newline: rng.chance(4, 5),
         n_row_pos: rng.below(3) as u8,
         empty_sections: rng.chance(1, 2),
+        padding_kb: 0,
     }
 }
